@@ -5,4 +5,4 @@ Require ExtrOcamlBasic.
 Extraction "../extract/gen/limits_model.ml" LimitsSpec.step LimitsSpec.init
   m_getdiskblock m_vinsertpair m_endoff m_hwrite m_vsetname m_vsetclass m_vssetname m_vsfdefine m_vssetfields
   m_vsseek m_vswrite_total m_newref_next m_tagnewref m_sdcreate_ok m_reset_maxopen ntsize alloc_dd find_elem get_vg get_vs
-  d_open_count resize m_hseek m_chunk_ref m_vpackvs_size.
+  d_open_count resize m_hseek m_chunk_ref m_vpackvs_size m_sdsetattr m_grsetattr.
